@@ -124,7 +124,7 @@ CCompare(op, a, b) ==
 
 (* ---------------- truth value (C02: and/or/not as truth values) ---------------- *)
 CTruth(a) ==
-  CASE a.t = "bool" -> a.v = 1
+  CASE a.t \in {"bool", "pybool"} -> a.v = 1
     [] a.t = "bit" -> a.v = 1
     [] a.t = "int" -> a.v # 0
     [] CIsVec(a) -> \E i \in 1..CWidth(a) : a.v[i] = 1
@@ -184,8 +184,11 @@ CEval(e, rd) ==
   CASE e.k = "ref" -> IF e.n \in DOMAIN rd THEN rd[e.n] ELSE CErr("reject:unknown name " \o e.n)
     [] e.k = "lit" -> CLit(e.ty, e.v)
     [] e.k = "int" -> CInt(e.v)
-    [] e.k = "true" -> CBool(TRUE)
-    [] e.k = "false" -> CBool(FALSE)
+    [] e.k = "null" -> CV("null", 0)     \* cohdl.Null / cohdl.Full: typed by the assignment target
+    [] e.k = "full" -> CV("full", 0)
+    [] e.k = "strlit" -> CV("str", e.b)  \* a bit-string literal: typed by the assignment target
+    [] e.k = "true" -> CV("pybool", 1)   \* Python's True/False literals are ints (bool is a subclass of int)
+    [] e.k = "false" -> CV("pybool", 0)
     [] e.k = "un" -> LET a == CEval(e.e, rd) IN IF CIsErr(a) THEN a ELSE CUnary(e.op, a)
     [] e.k = "bin" ->
          LET a == CEval(e.l, rd) b == CEval(e.r, rd) IN
